@@ -78,6 +78,8 @@ def _object(d):
         cov=_cov(d) if d.int(0, 2) == 0 else None,
         mans=[_man(d) for _ in range(d.pick(0, 0, 1, 2))],
         meta={d.pick(*META_KEYS): _meta_value(d) for _ in range(d.pick(0, 1, 2, 3))},
+        # reading .maneuvers / .cov creates the key with an empty default, which a copy must not share either
+        touch=d.coin(),
     )
     return spec
 
